@@ -4,6 +4,7 @@
 import MotoModel.Model.Basic
 import MotoModel.Model.Tape
 import MotoModel.Spec.BasicRef
+import MotoModel.Proofs.BasicCompose
 namespace Moto.C13
 open Moto Moto.Basic Moto.Spec
 
@@ -87,5 +88,71 @@ theorem convertLines_none_iff (ptr : Nat) (lines : List Str) :
 /-- regression witnesses of the repaired defects, and non-vacuity -/
 example : convert (Tape.str "10 GOTO 10\n") = some [0xFF, 0, 12, 0x25, 0xAE, 0, 10, 0x87, 0xBB, 0x20, 0x31, 0x30, 0, 0, 0] := by decide
 example : encodeBody (Tape.str "TOTO=1") = [0xBB, 0xBB, 0xD4, 0x31] := by decide
+
+/-! ### statements and delimited keywords -/
+
+/-- every keyword followed by any of the special characters (. , ( ) : blank) is stored as its token
+    followed by that character — whole table x all six characters, running the model in the kernel -/
+theorem keyword_then_separator : ∀ e ∈ Gen.Tokens.tokens, ∀ s ∈ Gen.Tokens.specialChars,
+    encodeBody (e.1 ++ [s]) = BasicRef.keywordBytes e.1 ++ [s] := by decide +kernel
+
+theorem no_quote_stays_outside (s : Str) (h : 34 ∉ s) : ∀ (c : Ctx), (s.foldl parseChar (c, false)).2 = false := by
+  induction s with
+  | nil => intro c; rfl
+  | cons ch rest ih =>
+    intro c
+    simp only [List.foldl_cons]
+    have hq : ch ≠ 34 := fun e => h (by simp [e])
+    have h2 := special_lit c ch hq false
+    have : parseChar (c, false) ch = ((parseChar (c, false) ch).1, false) := Prod.ext rfl h2
+    rw [this]
+    exact ih (fun hm => h (by simp [hm])) _
+
+/-- a piece of a line that ends, outside a string literal, with a special character -/
+def Segment (seg : Str) : Prop :=
+  ∃ a0 s, seg = a0 ++ [s] ∧ isSpecial s = true ∧ s ≠ 34 ∧ (a0.foldl parseChar ({}, false)).2 = false
+
+/-- **C13 (compositionality)**: a line cut into pieces that each end, outside a string literal, with
+    a special character — in particular the statements of a line, which end with ':' — is encoded
+    piece by piece: nothing already encoded is revisited, no token straddles a special character. -/
+theorem pieces_encode_independently (segs : List Str) (last : Str) (h : ∀ seg ∈ segs, Segment seg) :
+    encodeBody (segs.flatten ++ last) = (segs.map encodeBody).flatten ++ encodeBody last := by
+  induction segs with
+  | nil => simp
+  | cons seg rest ih =>
+    obtain ⟨a0, s, rfl, hs, hq, hlit⟩ := h seg (by simp)
+    simp only [List.flatten_cons, List.map_cons, List.append_assoc]
+    have := encodeBody_append a0 s (rest.flatten ++ last) hs hq hlit
+    simp only [List.append_assoc] at this
+    rw [this, ih (fun seg hseg => h seg (by simp [hseg]))]
+
+theorem keyword_no_quote : ∀ e ∈ Gen.Tokens.tokens, 34 ∉ e.1 := by decide +kernel
+
+/-- **C13 (delimited keywords)**: any sequence of keywords, each followed by a special character, is
+    stored as the sequence of their tokens, each followed by that character -/
+theorem delimited_keywords (kws : List (Str × Nat)) (h : ∀ p ∈ kws, (∃ e ∈ Gen.Tokens.tokens, e.1 = p.1) ∧ p.2 ∈ Gen.Tokens.specialChars) :
+    encodeBody (kws.flatMap fun p => p.1 ++ [p.2]) = kws.flatMap fun p => BasicRef.keywordBytes p.1 ++ [p.2] := by
+  have hseg : ∀ seg ∈ kws.map (fun p => p.1 ++ [p.2]), Segment seg := by
+    intro seg hm
+    obtain ⟨p, hp, rfl⟩ := List.mem_map.mp hm
+    obtain ⟨⟨e, he, hep⟩, hsp⟩ := h p hp
+    refine ⟨p.1, p.2, rfl, ?_, ?_, ?_⟩
+    · unfold isSpecial; simpa using hsp
+    · intro e34
+      rw [e34] at hsp
+      revert hsp; decide
+    · exact no_quote_stays_outside p.1 (hep ▸ keyword_no_quote e he) _
+  have := pieces_encode_independently (kws.map (fun p => p.1 ++ [p.2])) [] hseg
+  simp only [List.append_nil, List.map_map] at this
+  rw [List.flatMap_def, this]
+  have hnil : encodeBody [] = [] := by decide
+  rw [hnil, List.append_nil, List.flatMap_def]
+  congr 1
+  apply List.map_congr_left
+  intro p hp
+  obtain ⟨⟨e, he, hep⟩, hsp⟩ := h p hp
+  simp only [Function.comp]
+  rw [← hep]
+  exact keyword_then_separator e he p.2 hsp
 
 end Moto.C13
